@@ -760,3 +760,135 @@ def check_order_preserving(run, ctx, rule='C07-S2', generated=True):
                             % (body.name, callee_name(t).rsplit('::', 1)[-1], body.loc(b)), site='%s (%s)' % (body.name, body.loc(b)), oracle='queue removals preserve the order of the survivors')
     run.ok(rule, 'queue-operations', '%d order-queue operations in the core and in generated code, none reorders the survivors' % n)
     return n
+
+
+# ------------------------------------------------------------------------------------------------
+def _through_upvar(prog, body, e, depth=0):
+    """rewrite a captured-variable expression of a closure into the expression captured in its parent"""
+    e = strip_casts(e)
+    while e[0] == 'call' and e[1] == N.CLONE and e[2]:
+        e = strip_casts(e[2][0])
+    if depth > 4:
+        return body, e
+    if body.kind == 'closure' and e[0] == 'field' and e[1] == ('param', 1) and str(e[3]).startswith('closure:'):
+        par, ops = prog.closure_capture_operands(body)
+        k = int(e[2])
+        if ops is not None and k < len(ops):
+            pe = Expr(par).operand(ops[k])
+            return _through_upvar(prog, par, pe, depth + 1)
+    return body, e
+
+
+def check_victim_key_identity(run, ctx, rule='C04-P5'):
+    """the key removed from the store for a victim is the key removed from the queue"""
+    from . import rules_core as K
+    from .spec import SpecEffects
+    C = K.Core(ctx)
+    prog = ctx.prog
+    se = SpecEffects(prog, {})
+    n = 0
+    roots = []
+    for flav, adt in K.FLAVOURS:
+        for m in ('handle_entry_limit_eviction', 'insert_with_memory'):
+            f = C.method(adt, m)
+            if f is not None:
+                roots.append((flav, f))
+    for flav, fn in roots:
+        own = None
+        for i in range(1, fn.arg_count + 1):
+            if fn.local_ty(i) == '&str':
+                own = (fn.id, i)
+        for body in C.scope(fn):
+            ex = Expr(body)
+            for b, t in body.calls():
+                if classify(t) != 'S-':
+                    continue
+                if own is not None and se.key_root(body, t['args'][1]) == own:
+                    continue  # the operation's own key (oversize take-back / replacement)
+                n += 1
+                hb, key = _through_upvar(prog, body, ex.operand(t['args'][1]))
+                root, names = field_path(key)
+                okk = False
+                why = ''
+                if root[0] == 'call' and classify_name(root) in ('Q-front', 'Q-at', 'Q-back') and names[:2] == ['as:Some', '0']:
+                    okk, why = True, 'the key popped / removed from the queue'
+                else:
+                    # a retain(!= key) or position(== key)+remove on the queue with the same key, in the home body of the key
+                    hex_ = Expr(hb)
+                    for b2, t2 in hb.calls():
+                        k2 = classify(t2)
+                        if k2 == 'Q-key':
+                            for cid in t2['callee'].get('closures', []):
+                                cb = prog.bodies.get(cid)
+                                par, ops = prog.closure_capture_operands(cb) if cb else (None, None)
+                                if ops and any(_through_upvar(prog, hb, hex_.operand(o))[1] == key for o in ops):
+                                    okk, why = True, 'retain(!= the same key) on the queue'
+                        if k2 == 'Q-at':
+                            pos = hex_.operand(t2['args'][1])
+                            pr, pn = field_path(strip_casts(pos))
+                            if pr[0] == 'call' and pr[1] == POSITION:
+                                for cid in pr[4].get('closures', []):
+                                    cb = prog.bodies.get(cid)
+                                    par, ops = prog.closure_capture_operands(cb) if cb else (None, None)
+                                    if ops and any(_through_upvar(prog, hb, hex_.operand(o))[1] == key for o in ops):
+                                        okk, why = True, 'position(== the same key) + remove on the queue'
+                label = '%s/%s' % (flav, body.name)
+                if okk:
+                    run.ok(rule, '%s/bb%d' % (label, b), 'store victim is %s' % why)
+                else:
+                    run.bad(rule, label + '/victim-key-mismatch', 'the key removed from the store in %s (%s) is not the key that is removed from the order queue: one entry is evicted '
+                            'while another key loses its queue slot' % (body.name, show(key)), site='%s (%s)' % (body.name, body.loc(b)),
+                            oracle='victim removed from store and queue under the same key')
+    # the shared helper and the pass-through wrappers
+    rm = ctx.core_fn('cachelito_core::utils::remove_from_maps')
+    n += 1
+    if rm is None:
+        run.bad(rule, 'remove_from_maps/fail-closed', 'fail-closed: utils::remove_from_maps not found')
+    else:
+        ex = Expr(rm)
+        sm = [(b, t) for b, t in rm.calls() if callee_name(t) == N.HM + 'remove']
+        qa = [(b, t) for b, t in rm.calls() if classify(t) in ('Q-at', 'Q-key')]
+        okk = len(sm) == 1 and len(qa) == 1 and ex.operand(sm[0][1]['args'][1]) == ('param', 3)
+        if okk:
+            t2 = qa[0][1]
+            if classify(t2) == 'Q-at':
+                pr, pn = field_path(strip_casts(ex.operand(t2['args'][1])))
+                cl = pr[4].get('closures', []) if pr[0] == 'call' and pr[1] == POSITION else []
+            else:
+                cl = t2['callee'].get('closures', [])
+            okk = False
+            for cid in cl:
+                cb = prog.bodies.get(cid)
+                par, ops = prog.closure_capture_operands(cb) if cb else (None, None)
+                if ops and any(ex.operand(o) == ('param', 3) for o in ops):
+                    okk = True
+        if okk:
+            run.ok(rule, 'remove_from_maps', 'map.remove(key) and the queue removal of the same parameter key')
+        else:
+            run.bad(rule, 'remove_from_maps/key-mismatch', 'remove_from_maps must remove its key parameter from the map and from the queue', site=rm.name)
+    for nm, keyparam, callee_sfx in (('cachelito_core::utils::remove_key_from_global_cache', 3, 'remove_from_maps'), ('cachelito_core::utils::remove_key_from_cache_local', 3, 'remove_from_maps')):
+        f = ctx.core_fn(nm)
+        n += 1
+        if f is None:
+            run.bad(rule, nm.rsplit('::', 1)[-1] + '/fail-closed', 'fail-closed: %s not found' % nm)
+            continue
+        ex = Expr(f)
+        cs = [(b, t) for b, t in f.calls() if callee_name(t).endswith('::' + callee_sfx)]
+        if len(cs) == 1 and ex.operand(cs[0][1]['args'][2]) == ('param', keyparam):
+            run.ok(rule, nm.rsplit('::', 1)[-1], 'passes its key unchanged to %s' % callee_sfx)
+        else:
+            run.bad(rule, nm.rsplit('::', 1)[-1] + '/key-not-passed', '%s does not pass its key parameter unchanged to %s' % (nm, callee_sfx), site=f.name)
+    run.require(rule, 'victim removals judged', n, 12)
+    return n
+
+
+def classify_name(call_expr):
+    """effect kind of a ('call', name, args, block, extra) expression"""
+    from .effects import QUEUE_VD, is_queue_ty
+    cn = call_expr[1]
+    if cn.startswith(N.VD):
+        m = cn[len(N.VD):]
+        st = (call_expr[4] or {}).get('self_ty') or ''
+        if m in QUEUE_VD and is_queue_ty(parse(st)):
+            return QUEUE_VD[m]
+    return None
